@@ -111,7 +111,7 @@ def runRect (t : List String) : String :=
   | [f, sw, sh, x, y, w, h, seed] =>
     match getFormat f, natsOf [sw, sh, x, y, w, h, seed] with
     | some f, some [sw, sh, x, y, w, h, _] =>
-      if sw = 0 ∨ sh = 0 ∨ sw > 4096 ∨ sh > 4096 ∨ w = 0 ∨ h = 0 ∨ w > 4096 ∨ h > 4096 then "bad-case" else
+      if sw = 0 ∨ sh = 0 ∨ sw > 4096 ∨ sh > 4096 ∨ w > 4096 ∨ h > 4096 then "bad-case" else
       if x ≥ 2^32 ∨ y ≥ 2^32 then "bad-case" else
       match surfBytes f sw sh with
       | some n => if x + w ≤ sw ∧ y + h ≤ sh then s!"ok {n}" else "err RectOutOfBounds"
